@@ -77,7 +77,7 @@ PROPS = {
         kani=[], native=[N('verif_cursor::c05_prefixes', '~150 prefixes per file x 14 files')], witness=[],
         unproved=[READER_UNPROVED], explanation='iterator, cursor and index-cursor layers proved; bounded stand-in as independent check'),
     'C06': dict(
-        level='other',
+        level='proof',
         level_text='Proved (Verus, unbounded): the whole merge pipeline over an abstract state (for every source, in the order added, its entries and the position of its next unread entry). Merger::into_stream_merger_iter establishes the representation invariant of MergerIter (the heap holds exactly one well-positioned cursor per non-exhausted source); MergerIter::next is one `step` of the abstract state: it returns the smallest key under the heads of the live sources, with the merge function applied exactly once to the values of the sources holding that key in source order (group_vals), and advances exactly those sources -- or None exactly when no source is live; a merge-function error surfaces as Error::Merge. Entry::cmp == reverse lexicographic (key, source position) makes the max-heap pop smallest (key, position) first. Merger::write_into_stream_writer hands the Writer exactly a step trace of the start state (trace_ok, all sources exhausted at the end, termination proved), and pure lemmas show that the keys of a trace are strictly ascending and are exactly the keys of the sources (lemma_trace_ascending, lemma_trace_consumed). ASSUMED: std BinaryHeap (pop/peek return a greatest element, push adds), the user merge function is a deterministic function of (key, values) (mf_out), the hoisted iterator chain collect_values. Independent bounded stand-in: all overlap patterns of 3 sources x 4 keys (every 5th in quick, all 4096 in thorough) plus random merges of up to 6 sources / 150 keys with an order-recording non-commutative merge function that logs every call; both the streaming iterator and write_into_stream_writer (decoded independently).',
         level_note='assumed: std::collections::BinaryHeap contract (prelude), determinism of the user MergeFunction (mf_out), collect_values (R-hoist of an iterator chain), plus everything C01-C03 assume for the cursors; rewrites R-chain-drain / R-field-split / R-enumerate applied to merger.rs before verification (DESIGN.md 0.3)',
         technique='Verus contracts on Merger / MergerIter over an abstract k-way merge state (step / trace) + bounded differential stand-in on the real Merger',
